@@ -107,10 +107,12 @@ CLAIMED = {
             technique="Coq proof over translator-generated mode flags (finite sweep) and an executable model of the evaluation loop + extracted-model trace correspondence + recording-learner oracle", design="§5 C06"),
  "C19": dict(text="Coq theorems (C19/Props.v) over an interleaving model of ConcurrentCacher: for ANY number of callers, ANY lists of get_set/rmv operations on equal or colliding keys, ANY schedule (lists of caller ids, at the granularity of the atomic lock "
                   "blocks, getter steps and inner-cache operations) and getters that fail, the counter invariant (arr=-1 iff one writer and no reader; arr=r>=0 iff r readers and no writer; an entry is Writing iff exactly one getter runs) is inductive and so holds in every "
-                  "reachable state; corollaries: no partial read, writers exclusive, all locks released when everybody has finished, no deadlock (some caller can always make a non-spinning step), single flight, a failed getter leaves no entry. "
+                  "reachable state; corollaries: no partial read, writers exclusive, all locks released when everybody has finished, no deadlock (some caller can always make a non-spinning step), single flight, a failed getter leaves no entry; "
+                  "no_caller_waits_for_ever: a potential mu (8 per pending operation) is lowered by every non-spinning step, every round that schedules each caller at least once contains such a step while somebody is unfinished, "
+                  "so under ANY scheduler that keeps scheduling everybody all callers have finished after at most mu rounds, whatever the getters do. "
                   "A deterministic scheduler (injected lock object and shared array, patched sleep, pausing getters) drives the real class through random and - in the thorough tier - exhaustive schedules which are replayed in the extracted model; "
                   "a monitor in the instrumented inner cache checks the property on the implementation; real DiskCacher files are cut at every byte.",
-            note="Trusted: Coq kernel, extraction+driver, the scheduler harness (threads + Condition). One slot of the lock table is modelled (all keys collide - the hard case); processes are represented by threads; termination under fairness is argued from no_deadlock, not proved; "
+            note="Trusted: Coq kernel, extraction+driver, the scheduler harness (threads + Condition). One slot of the lock table is modelled (all keys collide - the hard case); processes are represented by threads in the scheduled co-simulation (a two-process run through CobaMultiprocessor and the cross-interpreter slot law cover what threads cannot); termination is proved for schedulers that serve every caller in every round (an OS scheduler that starves a caller for ever is outside); "
                  "nested get_set on colliding keys is excluded by the property; the inner cache follows MemoryCacher's visibility (an entry being written is not yet contained).",
             technique="Coq proof (inductive invariant over interleavings) + scheduled co-simulation with the extracted model + runtime monitor", design="§5 C19"),
  "C07": dict(text="Coq theorems (C07/Props.v): pack_unpack - for ANY rows with heterogeneous key sets (at least one field), packing column-wise with sorted keys and None for absent cells and unpacking again yields as many rows, numbered 1..N in the order yielded, "
@@ -125,9 +127,10 @@ CLAIMED = {
                   "disk_roundtrip - CR/LF-free lines written by DiskSink in any batching are read back identically; split_join, libsvm_roundtrip - the LibSVM/Manik grammar parses what the printer wrote; csv_roundtrip - the csv automaton parses RFC-4180 minimal quoting back to the cells; arff_dense_line_roundtrip - the csv automaton with ArffLineReader's dialect (one quote character, backslash escapes, doublequote off, skipinitialspace on) parses a data line written the Weka/OpenML way back to its values; "
                   "arff_sparse_line_roundtrip - the steps of ArffLineReader._sparse (strip, drop braces, split at commas, key/value split at white space, re-joining the pieces of a quoted value while _unclosed judges it open, unquote, _unescape), "
                   "modelled step by step, read a sparse line written the Weka way back to its pairs for values over any characters; "
+                  "arff_nominal_levels_roundtrip - the level list of a nominal attribute, split at commas with the separators kept, quoted levels re-joined while unclosed, stripped, unquoted, unescaped (ArffAttrReader._split), reads levels written the Weka way back; "
                   "source_constants - the separators/terminators/strip sets and the decoder shape are those the translator extracted from the source on this run. Extracted models are compared with DelimSource, _byte_it_ (identity/gzip/deflate, chunk sizes 1-40), "
                   "DiskSink/DiskSource (plain/.gz), LibsvmReader/ManikReader and CsvReader; a table oracle compares printed tables with the parsed rows for LibSVM, Manik, CSV and ARFF dense/sparse in the Weka/OpenML dialect and in variant spellings (same table or an error).",
-            note="PARTIAL for ARFF: dense data lines with one quote character and sparse data lines have models and theorems (compared with Python's csv module under the reader's dialect and with ArffLineReader); the header parser (regex splitting), the dialect detection, the fallback parser for mixed quote styles and the encoders have no Gallina model and are decided by the table oracle only. Trusted: Coq kernel, translator (statement templates, fails closed), extraction+driver, harness printers "
+            note="PARTIAL for ARFF: dense data lines with one quote character and sparse data lines have models and theorems (compared with Python's csv module under the reader's dialect and with ArffLineReader); of the header parser only the nominal level list is modelled (attribute names and types are split by the same routine with a white-space pattern, which is not); the dialect detection, the fallback parser for mixed quote styles and the encoders have no Gallina model and are decided by the table oracle only. Trusted: Coq kernel, translator (statement templates, fails closed), extraction+driver, harness printers "
                  "(Weka quoting, RFC-4180), zlib/gzip, the codec's code-point arithmetic, Python's csv module (re-implemented for one dialect and compared), int()/float(). A line handed to DiskSink contains no CR/LF; an embedded CSV line break reads back as \\n. "
                  "Open findings: a quoted '?' value reads as missing; tab separated ARFF with a comma inside a quoted value can be misread.",
             technique="Coq proof (automaton invariants, round-trip inductions) over translator-checked constants + extracted-model correspondence + printed-table oracle", design="§5 C12"),
